@@ -450,7 +450,8 @@ def pred_keep(kind, e, pred):
     if not pred:
         return True
     if pred["p"] == "missing":
-        cells = e.vals if kind == "dense" else list(e.d.values())
+        if e_missing(e) is None:
+            raise Undefined("the rows have no `missing` attribute")
         return not bool(e_missing(e))
     if pred["p"] == "eq":
         k = pred["k"]
@@ -492,14 +493,18 @@ def eager_table(case):
     out = []
     for raw in case["rows"]:
         e = eager_base(case, raw)
-        e.missing = raw_missing(kind, raw)
+        # only LazyDense / LazySparse rows carry the `missing` attribute of their source line
+        e.missing = raw_missing(kind, raw) if case["base"]["wrap"] in ("lazy", "arff") else None
         if has_err(e):
             raise Undefined("a base encoder raises on a cell: the eager load itself fails")
         for st in case["stages"]:
             m = e.missing
+            prev = e
             e = eager_stage(kind, e, st)
             if e is None:
                 break
+            if st["op"] == "enccat" and e is not prev:
+                m = None        # EncodeCatRows materialised the row: a plain list / dict has no `missing`
             if has_err(e):
                 raise Undefined("an encoder raises on a cell: the eager stage itself fails")
             e.missing = m
@@ -532,6 +537,13 @@ def eager_feats(e):
 
 UNDEF = {"u": 1}
 _OPEN = None
+
+
+def BF(key, what, sig):
+    """a (B) failure of one table; key names the place (T = table level, a<j> = access j, o<j> = access order at j)"""
+    f = F("B", what, sig)
+    f["_k"] = key
+    return f
 
 
 def open_sig(sig):
@@ -621,8 +633,8 @@ def eager_access(e, acc):
 
 
 # ------------------------------------------------------------------ the real code
-def build_real(case):
-    """run the real pipeline; returns the list of row objects"""
+def base_rows(case):
+    """the base rows of one table (plain lists/dicts, LazyDense/LazySparse, or what ArffReader yields)"""
     import coba.pipes.rows as R
     kind, base = case["kind"], case["base"]
     rows = []
@@ -655,9 +667,24 @@ def build_real(case):
                         kw["fwd"] = {n: i for i, n in enumerate(base["hdr"])}
                         kw["inv"] = {i: n for i, n in enumerate(base["hdr"])}
                     rows.append(R.LazySparse(src, missing=raw_missing(kind, raw), **kw))
-    for st in case["stages"]:
-        rows = apply_real_stage(R, rows, st)
+    return rows
+
+
+def make_filters(stages):
+    """one filter object per stage; the same objects are then applied to every table of the case"""
+    import coba.pipes.rows as R
+    return [make_filter(R, st) for st in stages]
+
+
+def run_pipeline(filters, rows):
+    for f in filters:
+        rows = f.filter(rows)
     return list(rows)
+
+
+def build_real(case):
+    """run the real pipeline of one table with fresh filter objects; returns the list of row objects"""
+    return run_pipeline(make_filters(case["stages"]), base_rows(case))
 
 
 def arff_lines(case):
@@ -688,22 +715,22 @@ def real_pred(pred):
     return lambda row: row[k] == want
 
 
-def apply_real_stage(R, rows, st):
+def make_filter(R, st):
     op = st["op"]
     if op == "head":
         if "map" in st:
-            return R.HeadRows({name: k for name, k in st["map"]}).filter(rows)
-        return R.HeadRows(list(st["names"])).filter(rows)
+            return R.HeadRows({name: k for name, k in st["map"]})
+        return R.HeadRows(list(st["names"]))
     if op == "encode":
         if "seq" in st:
-            return R.EncodeRows([real_enc(e) for e in st["seq"]]).filter(rows)
-        return R.EncodeRows({k: real_enc(e) for k, e in st["map"]}).filter(rows)
+            return R.EncodeRows([real_enc(e) for e in st["seq"]])
+        return R.EncodeRows({k: real_enc(e) for k, e in st["map"]})
     if op == "drop":
-        return R.DropRows(list(st["cols"]), real_pred(st.get("pred"))).filter(rows)
+        return R.DropRows(list(st["cols"]), real_pred(st.get("pred")))
     if op == "label":
-        return R.LabelRows(st["k"], st.get("t")).filter(rows)
+        return R.LabelRows(st["k"], st.get("t"))
     if op == "enccat":
-        return R.EncodeCatRows(st.get("t")).filter(rows)
+        return R.EncodeCatRows(st.get("t"))
     raise ValueError(st)
 
 
@@ -813,8 +840,27 @@ def real_access(r, acc, e):
         return {"e": type(ex).__name__}
 
 
-def run_real(case):
-    """-> {"pipe_err": name} | {"n": rows, "first": [results], "second": [results in original indexing], "again": [...]}"""
+TABLE_KEYS = ("kind", "base", "rows", "ri", "acc", "perm")
+
+
+def tables_of(case):
+    """the tables of a case as single-table cases: the main one, then `others`; all share `stages`"""
+    out = [dict({k: case[k] for k in TABLE_KEYS if k in case}, stages=case["stages"])]
+    for t in case.get("others") or []:
+        out.append(dict({k: t[k] for k in TABLE_KEYS if k in t}, stages=case["stages"]))
+    return out
+
+
+def run_real_multi(case):
+    """the SAME filter objects (one set per copy) are applied to the tables one after the other; every table is
+    observed on its own.  -> [(out, eager_table) per table]"""
+    f1, f2 = make_filters(case["stages"]), make_filters(case["stages"])
+    return [run_real(t, f1, f2) for t in tables_of(case)]
+
+
+def run_real(case, f1=None, f2=None):
+    """one table. -> {"pipe_err": name} | {"n": rows, "first": [results], "second": [results in original indexing], "again": [...]}
+    f1 / f2: the filter objects to use for the first / second copy (fresh ones when not given)"""
     try:
         et = eager_table(case)
         eager_err = None
@@ -822,10 +868,16 @@ def run_real(case):
         et, eager_err = None, str(u)
     out = {"eager_err": eager_err}
     try:
-        t1 = build_real(case)
-        t2 = build_real(case)
+        t1 = run_pipeline(f1 if f1 is not None else make_filters(case["stages"]), base_rows(case))
     except Exception as ex:
         out["pipe_err"] = type(ex).__name__
+        t1 = None
+    try:
+        t2 = run_pipeline(f2 if f2 is not None else make_filters(case["stages"]), base_rows(case))
+    except Exception as ex:
+        out["pipe_err"] = type(ex).__name__
+        t2 = None
+    if t1 is None or t2 is None:
         return out, et
     out["n"] = len(t1)
     ri = case["ri"]
@@ -1344,11 +1396,141 @@ class C13(Property):
                 "acc": acc, "perm": rng.shuffle(list(range(len(acc))))}
         return case
 
+    # -------------------------------------------------------------- further tables for the same filter objects
+    def derive_table(self, rng, case):
+        """another table for the same stages: the main table with its columns permuted / one removed / one added
+        (headers, base encoders and ARFF attributes move with their column), or converted dense <-> sparse"""
+        import copy as _copy
+        kind, base, rows = case["kind"], _copy.deepcopy(case["base"]), _copy.deepcopy(case["rows"])
+        stages = case["stages"]
+        has_enccat = any(st["op"] == "enccat" and st.get("t") for st in stages)
+        mode = rng.wchoice([(5, "permute"), (2, "narrow"), (3, "widen"), (3, "convert"), (1, "same")])
+        if mode == "convert" and has_enccat:
+            mode = "permute"
+        fresh = [n for n in NAMES + ["z"] if n not in json.dumps(case)]
+        newname = fresh[0] if fresh else "zz%d" % rng.below(100)
+        if kind == "dense":
+            n = len(rows[0]) if rows else 0
+            names = base.get("hdr") if base.get("hdr") is not None else ([c["name"] for c in base["cols"]] if base["wrap"] == "arff" else None)
+            if mode == "convert":
+                keys = names if names is not None else list(range(n))
+                nrows = [[[keys[j], r[j]] for j in range(n) if not (rng.chance(0.2) and n > 1)] for r in rows]
+                t = {"kind": "sparse", "base": {"wrap": "plain"}, "rows": nrows}
+            else:
+                idx = list(range(n))
+                if mode == "permute":
+                    idx = rng.shuffle(idx)
+                elif mode == "narrow" and n > (2 if base["wrap"] == "arff" else 1):
+                    idx.pop(rng.below(n))
+                elif mode == "widen" and n > 0:
+                    idx.insert(rng.below(n + 1), -1 - rng.below(n))     # -1-c: a copy of column c under a new name
+                src = lambda j: j if j >= 0 else -1 - j
+                if base.get("hdr") is not None:
+                    base["hdr"] = [base["hdr"][j] if j >= 0 else newname for j in idx]
+                if base.get("enc"):
+                    base["enc"] = [base["enc"][src(j)] for j in idx]
+                if base["wrap"] == "arff":
+                    base["cols"] = [dict(base["cols"][src(j)], name=(base["cols"][j]["name"] if j >= 0 else newname)) for j in idx]
+                t = {"kind": "dense", "base": base, "rows": [[r[src(j)] for j in idx] for r in rows]}
+        else:
+            raw_int = base["wrap"] == "arff" or base.get("hdr") is not None
+            if mode == "convert":
+                if raw_int:
+                    names = base.get("hdr") if base.get("hdr") is not None else [c["name"] for c in base["cols"]]
+                    keys = list(range(len(names)))
+                else:
+                    keys, names = [], None
+                    for r in rows:
+                        for k, _ in r:
+                            if k not in keys:
+                                keys.append(k)
+                    if keys and all(isinstance(k, str) for k in keys):
+                        names = list(keys)
+                if not keys:
+                    mode = "same"
+                else:
+                    nrows = [[dict((k, c) for k, c in r).get(k, "0") for k in keys] for r in rows]
+                    nb = {"wrap": "lazy", "loader": rng.chance(0.5), "hdr": names} if names is not None else {"wrap": "plain"}
+                    t = {"kind": "dense", "base": nb, "rows": nrows}
+            if mode != "convert":
+                if raw_int:
+                    n = len(base["hdr"]) if base.get("hdr") is not None else len(base["cols"])
+                    idx = list(range(n))
+                    if mode == "permute":
+                        idx = rng.shuffle(idx)
+                    elif mode == "narrow" and n > 1:
+                        idx.pop(rng.below(n))
+                    elif mode == "widen" and n > 0:
+                        idx.insert(rng.below(n + 1), -1 - rng.below(n))
+                    src = lambda j: j if j >= 0 else -1 - j
+                    if base.get("hdr") is not None:
+                        base["hdr"] = [base["hdr"][j] if j >= 0 else newname for j in idx]
+                    if base["wrap"] == "arff":
+                        base["cols"] = [dict(base["cols"][src(j)], name=(base["cols"][j]["name"] if j >= 0 else newname)) for j in idx]
+                    if base.get("enc"):
+                        old = dict((k, e) for k, e in base["enc"])
+                        base["enc"] = [[new, old[src(j)]] for new, j in enumerate(idx) if src(j) in old]
+                    nrows = []
+                    for r in rows:
+                        have = dict((k, c) for k, c in r)
+                        nrows.append([[new, have[src(j)]] for new, j in enumerate(idx) if src(j) in have])
+                    t = {"kind": "sparse", "base": base, "rows": nrows}
+                else:
+                    keys = []
+                    for r in rows:
+                        for k, _ in r:
+                            if k not in keys:
+                                keys.append(k)
+                    if mode == "narrow" and len(keys) > 1:
+                        gone = rng.choice(keys)
+                        rows = [[p for p in r if p[0] != gone] for r in rows]
+                        if base.get("enc"):
+                            base["enc"] = [p for p in base["enc"] if p[0] != gone]
+                    elif mode == "widen" and keys:
+                        c = rng.choice(keys)
+                        nk = (max(k for k in keys if isinstance(k, int)) + 1) if all(isinstance(k, int) for k in keys) else newname
+                        rows = [r + [[nk, dict((k, v) for k, v in r)[c]]] if any(k == c for k, _ in r) else r for r in rows]
+                    elif mode == "permute":
+                        rows = [rng.shuffle(r) for r in reversed(rows)]
+                    t = {"kind": "sparse", "base": base, "rows": rows}
+        if mode == "same":
+            t = {"kind": kind, "base": base, "rows": rows}
+        # accesses of this table
+        pool = set(NAMES[:4])
+        for st in stages:
+            if st["op"] == "head":
+                pool.update(st.get("names") or [p[0] for p in st["map"]])
+        b = t["base"]
+        own = list(b.get("hdr") or []) + [c["name"] for c in b.get("cols") or []]
+        if t["kind"] == "sparse":
+            for r in t["rows"]:
+                own += [k for k, _ in r]
+            pool.update(range(4))
+            pool.add("lbl")
+        pool.update(own)
+        width = max([len(r) for r in t["rows"]] + [1])
+        labeled = any(st["op"] == "label" for st in stages)
+        acc = self.gen_accesses(rng, t["kind"], width + (4 if has_enccat else 0), sorted(pool, key=str), labeled)
+        final = [x for x in own if x is not None]
+        if final and not any(st["op"] == "head" for st in stages):
+            for a in acc:
+                l = leaf(a)
+                if l["a"] == "name" and rng.chance(0.6):
+                    l["k"] = rng.choice(final)
+        t["ri"] = rng.below(max(1, len(t["rows"])))
+        t["acc"] = acc
+        t["perm"] = rng.shuffle(list(range(len(acc))))
+        return t
+
     def generate(self, rng, tier):
-        return self.make_case(rng, tier)
+        case = self.make_case(rng, tier)
+        k = rng.wchoice([(5, 0), (4, 1), (2, 2)])
+        if k and case["rows"] and case["stages"]:
+            case["others"] = [self.derive_table(rng, case) for _ in range(k)]
+        return case
 
     def search(self, rng, tier):
-        return self.make_case(rng, tier, search=True)
+        return self.generate(rng, tier)
 
     # -------------------------------------------------------------- corpus
     def corpus(self):
@@ -1391,6 +1573,27 @@ class C13(Property):
                      [[[0, "1"]], [[1, "q"], [2, "x"]]], [{"op": "drop", "cols": ["a"], "pred": {"p": "missing"}}], full_s, 1))
         cs.append(mk("sparse", plain, [[["a", {"cat": "q", "lv": ["p", "q"]}], ["b", 2]]], [{"op": "enccat", "t": "onehot"}], full_s + [{"a": "name", "k": "a_1"}]))
         cs.append(mk("sparse", {"wrap": "lazy", "loader": False}, [[["a", {"cat": "q", "lv": ["p", "q"]}], ["b", 2]]], [{"op": "enccat", "t": "string"}], full_s))
+        # one set of filter objects, several tables (filters must carry nothing from one filter() call to the next)
+        def tab(kind, base, rows, acc, ri=0):
+            return {"kind": kind, "base": base, "rows": rows, "ri": ri, "acc": acc, "perm": list(reversed(range(len(acc))))}
+        nsx = [{"a": "name", "k": "n"}, {"a": "name", "k": "s"}, {"a": "name", "k": "x"}, {"a": "pos", "i": 0}, {"a": "pos", "i": 1}, {"a": "pos", "i": 2}, {"a": "iter"}, {"a": "len"}, {"a": "headers"}, {"a": "eq", "o": "same"}]
+        c = mk("dense", {"wrap": "lazy", "loader": False, "hdr": ["n", "s", "x"]}, [["1", "u", "2"], ["3", "v", "4"]], [{"op": "encode", "map": [["n", "int"], ["x", "int"]]}], nsx)
+        c["others"] = [tab("dense", {"wrap": "lazy", "loader": False, "hdr": ["s", "x", "n"]}, [["w", "6", "7"], ["z", "8", "9"]], nsx, 1),
+                       tab("dense", {"wrap": "lazy", "loader": True, "hdr": ["x", "n"]}, [["5", "6"]], nsx)]
+        cs.append(c)
+        c = mk("dense", plain, [["1", "a"]], [{"op": "encode", "map": [[0, "int"], [3, "int"]]}], full_d)
+        c["others"] = [tab("dense", plain, [["2", "b", "c", "5"]], full_d + [{"a": "pos", "i": 4}])]
+        cs.append(c)
+        c = mk("dense", {"wrap": "lazy", "loader": False, "hdr": ["a", "b", "c"]}, [["1", "2", "3"]], [{"op": "drop", "cols": ["a"], "pred": None}, {"op": "label", "k": "b", "t": "c"}], full_d + lab_d)
+        c["others"] = [tab("dense", {"wrap": "lazy", "loader": False, "hdr": ["c", "b", "a", "d"]}, [["1", "2", "3", "4"]], full_d + lab_d),
+                       tab("sparse", plain, [[["b", "2"], ["a", "1"], ["e", "5"]]], full_s + lab_s)]
+        cs.append(c)
+        c = mk("sparse", plain, [[[0, "1"], [1, "2"]]], [{"op": "head", "names": ["a", "b", "c"]}, {"op": "encode", "map": [["a", "int"], ["c", "str"]]}, {"op": "label", "k": "b", "t": "r"}], full_s + lab_s)
+        c["others"] = [tab("sparse", plain, [[[2, "7"], [0, "1"]]], full_s + lab_s), tab("dense", plain, [["1", "2", "3"]], full_d + lab_d)]
+        cs.append(c)
+        c = mk("dense", plain, [[1, {"cat": "q", "lv": ["p", "q", "r"]}, 2]], [{"op": "enccat", "t": "onehot"}], full_d)
+        c["others"] = [tab("dense", plain, [[{"cat": "p", "lv": ["p", "q"]}, 5]], full_d), tab("dense", plain, [[7, 8, 9, 10]], full_d)]
+        cs.append(c)
         # LabelRows(int) on header-mapped sparse rows: the label is translated to its header name
         cs.append(mk("sparse", {"wrap": "arff", "cols": [{"name": "a", "t": "num"}, {"name": "b", "t": "cat", "lv": ["p", "q"]}, {"name": "c", "t": "str"}]},
                      [[[0, "1"], [2, "x"]], [[1, "q"]]], [{"op": "label", "k": 1, "t": "c"}], full_s + lab_s))
@@ -1410,13 +1613,49 @@ class C13(Property):
 
     # -------------------------------------------------------------- evaluation
     def evaluate(self, case, driver):
-        fails, tags = [], []
+        """every table of the case goes through the SAME filter objects, one table after the other, and is judged
+        against its own eager model / its own model request (the *Rows filters must carry nothing from one filter() call to the next)"""
         hook = sys.unraisablehook
         sys.unraisablehook = lambda *a: None    # LazyDense._enc_all's bare `except` swallows GeneratorExit of abandoned iterations (stderr noise only)
         try:
-            real, et = run_real(case)
+            tabs = tables_of(case)
+            runs = run_real_multi(case)
+            outs = []
+            for idx, (t, (real, et)) in enumerate(zip(tabs, runs)):
+                o = self.eval_table(t, real, et, driver)
+                if idx > 0:
+                    o["tags"] = ["table%d:%s" % (idx + 1, "eager-defined" if et is not None else "eager-undefined"), "later-table-kind:" + t["kind"]] + o["tags"]
+                    bad = [f for f in o["fails"] if f["kind"] == "B"]
+                    if bad:
+                        # is the table right when fresh filter objects are used? then the filters carried state over from the earlier tables
+                        alone = self.eval_table(t, *run_real(t), None)
+                        alone_keys = set(f.get("_k") for f in alone["fails"] if f["kind"] == "B")
+                        ops = "+".join(sorted(set(st["op"] for st in t["stages"])))
+                        for f in bad:
+                            if f.get("_k") not in alone_keys:
+                                f["sig"] = "%s:filter-carries-state:%s" % (t["kind"], ops)
+                                f["what"] = ("table #%d of the case, processed by the same filter objects after the earlier table(s) (the same table is right with fresh filter objects): "
+                                             % (idx + 1)) + f["what"]
+                            else:
+                                f["what"] = ("table #%d of the case: " % (idx + 1)) + f["what"]
+                    for f in o["fails"]:
+                        if f["kind"] != "B":
+                            f["what"] = ("table #%d of the case: " % (idx + 1)) + f["what"]
+                outs.append(o)
         finally:
             sys.unraisablehook = hook
+        fails, tags = [], []
+        for o in outs:
+            for f in o["fails"]:
+                f.pop("_k", None)
+                fails.append(f)
+            tags += o["tags"]
+        tags.append("tables:%d" % len(outs))
+        return {"fails": fails, "nontrivial": any(o["nontrivial"] for o in outs), "tags": tags,
+                "impl": [o["impl"] for o in outs], "model": [o["model"] for o in outs]}
+
+    def eval_table(self, case, real, et, driver):
+        fails, tags = [], []
         kind = case["kind"]
         nacc = len(case["acc"])
         tags.append("kind:" + kind)
@@ -1437,11 +1676,11 @@ class C13(Property):
             tags.append("pipe-err")
             if et is not None:
                 tfail = classify(case, None, None, {"e": real["pipe_err"]})
-                fails.append(F("B", "the lazy pipeline raised %s while the eager table is well defined (%d rows); stages %s" % (real["pipe_err"], len(et), json.dumps(case["stages"])), tfail))
+                fails.append(BF("T", "the lazy pipeline raised %s while the eager table is well defined (%d rows); stages %s" % (real["pipe_err"], len(et), json.dumps(case["stages"])), tfail))
         elif et is not None:
             if real["n"] != len(et):
                 tfail = classify(case, None, None, {"v": real["n"]})
-                fails.append(F("B", "the lazy pipeline yields %d rows, the eager table has %d (row predicates %s)" % (real["n"], len(et), json.dumps([st.get("pred") for st in case["stages"] if st["op"] == "drop"])), tfail))
+                fails.append(BF("T", "the lazy pipeline yields %d rows, the eager table has %d (row predicates %s)" % (real["n"], len(et), json.dumps([st.get("pred") for st in case["stages"] if st["op"] == "drop"])), tfail))
             elif not real.get("no_row"):
                 e = et[case["ri"]]
                 for j, acc in enumerate(case["acc"]):
@@ -1458,12 +1697,12 @@ class C13(Property):
                             tags.append("must-raise:" + leaf(acc)["a"])
                         if ("e" in exp) != ("e" in got) or ("v" in exp and exp["v"] != got["v"]):
                             bsig[j] = classify(case, acc, exp, got)
-                            fails.append(F("B", "row %d after %s: access %s gives %s, the eager row gives %s" % (
+                            fails.append(BF("a%d" % j, "row %d after %s: access %s gives %s, the eager row gives %s" % (
                                 case["ri"], json.dumps(case["stages"]), json.dumps(acc), json.dumps(got)[:300], json.dumps(exp)[:300]), bsig[j]))
                     # access order: permuted run on a fresh copy, then every access once more on the used copy
                     for other, what in ((real["second"][j], "in a different order on a fresh copy"), (real["again"][j], "again after all other accesses")):
                         if other is not None and other != got:
-                            fails.append(F("B", "access %s returned %s first and %s when performed %s" % (json.dumps(acc), json.dumps(got)[:200], json.dumps(other)[:200], what),
+                            fails.append(BF("o%d" % j, "access %s returned %s first and %s when performed %s" % (json.dumps(acc), json.dumps(got)[:200], json.dumps(other)[:200], what),
                                            "%s:order-dependent:%s" % (kind, leaf(acc)["a"])))
         if real.get("no_row"):
             tags.append("no-row")
@@ -1542,6 +1781,20 @@ class C13(Property):
 
     # -------------------------------------------------------------- shrinking
     def shrink(self, case):
+        others = case.get("others") or []
+        for k in range(len(others)):
+            rest = others[:k] + others[k + 1:]
+            yield dict(case, others=rest) if rest else {x: y for x, y in case.items() if x != "others"}
+        for k, t in enumerate(others):
+            for j in range(len(t["acc"])):
+                na = t["acc"][:j] + t["acc"][j + 1:]
+                yield dict(case, others=others[:k] + [dict(t, acc=na, perm=list(range(len(na))))] + others[k + 1:])
+            if len(t["rows"]) > 1:
+                for j in range(len(t["rows"])):
+                    nr = t["rows"][:j] + t["rows"][j + 1:]
+                    yield dict(case, others=others[:k] + [dict(t, rows=nr, ri=min(t["ri"], len(nr) - 1))] + others[k + 1:])
+        if others and case["acc"]:
+            yield dict(case, acc=[], perm=[])
         acc = case["acc"]
         for k in range(len(acc)):
             na = acc[:k] + acc[k + 1:]
@@ -1578,9 +1831,11 @@ class C13(Property):
             yield dict(case, perm=list(range(len(acc))))
 
     def snippet(self, case):
-        return ("import sys, json; sys.path[:0]=[%r, '/verif/harness']\nfrom props.c13 import run_real, eager_table, eager_access\n"
-                "case = json.loads(%r)\nreal, et = run_real(case)\nprint('lazy :', real.get('pipe_err') or real.get('first'))\n"
-                "print('eager:', [eager_access(et[case['ri']], a) for a in case['acc']] if et and case['ri'] < len(et) else et)\n"
+        return ("import sys, json; sys.path[:0]=[%r, '/verif/harness']\nfrom props.c13 import run_real_multi, tables_of, eager_access\n"
+                "case = json.loads(%r)\n# the same filter objects process the tables of the case one after the other\n"
+                "for t, (real, et) in zip(tables_of(case), run_real_multi(case)):\n"
+                "    print('lazy :', real.get('pipe_err') or real.get('first'))\n"
+                "    print('eager:', [eager_access(et[t['ri']], a) for a in t['acc']] if et and t['ri'] < len(et) else et)\n"
                 % (os.environ.get("COBA_REPO", "/repo"), json.dumps(case)))
 
 
